@@ -18,11 +18,11 @@ var _ = pubsub.ValidationAccept
 // (the real Store is the subject of C04/C06/C08/C12/C14/C17). It keeps what the real Store promises:
 // Head is the top of the contiguous run, DeleteRange accepts only the ends of the chain.
 type zzSpecStore struct {
-	hdrs    map[uint64]*zh.Hdr
-	head    *zh.Hdr
-	tail    *zh.Hdr
-	batches [][]*zh.Hdr // every Append as received
-	deletes [][2]uint64
+	hdrs       map[uint64]*zh.Hdr
+	head       *zh.Hdr
+	tail       *zh.Hdr
+	batches    [][]*zh.Hdr // every Append as received
+	deletes    [][2]uint64
 	failAppend func() error // optional fault injection
 }
 
@@ -224,7 +224,9 @@ type zzSub struct {
 	verifier func(context.Context, *zh.Hdr) error
 }
 
-func (s *zzSub) Subscribe() (header.Subscription[*zh.Hdr], error) { return nil, errors.New("zz: no subscriptions") }
+func (s *zzSub) Subscribe() (header.Subscription[*zh.Hdr], error) {
+	return nil, errors.New("zz: no subscriptions")
+}
 func (s *zzSub) SetVerifier(v func(context.Context, *zh.Hdr) error) error {
 	s.verifier = v
 	return nil
